@@ -709,6 +709,31 @@ func (mc *machine) observeWith(tombTolerance bool) *finding {
 				mc.tombUsed = true
 			}
 		}
+		// the same signature per shard: a series that still has points in other shards, none left
+		// in hour h's shard, and a (fully tombstoned) TSM index key there keeps its measurement in
+		// that shard's index; this only feeds the per-shard measurement check (staleMeasAt), the
+		// bucket-wide listings below keep skipping series that have data
+		for _, sk := range mc.m.SeriesKeys() {
+			if !wantSeries[sk] {
+				continue
+			}
+			for h := range mc.hoursWithTSMKey(sk) {
+				left := false
+				for _, f := range mc.m.Fields(sk) {
+					if len(mc.m.Range(sk, f, int64(h)*hourNs, int64(h+1)*hourNs-1, true)) > 0 {
+						left = true
+						break
+					}
+				}
+				if !left {
+					if mc.tombHours[sk] == nil {
+						mc.tombHours[sk] = map[int]bool{}
+					}
+					mc.tombHours[sk][h] = true
+					mc.tombUsed = true
+				}
+			}
+		}
 		for sk, hs := range mc.tombHours {
 			if wantSeries[sk] {
 				continue
